@@ -154,6 +154,18 @@ GenLenAt(j) ==
             [len |-> n, feed |-> BytesToHex(Prng(K("gl", <<j>>), 40)),
              fail_at |-> IF m = 0 THEN <<>> ELSE IF m = 1 THEN <<0>> ELSE <<0, 1, 2, 3>>])
 
+\* the kinds of failure the source may report (errno of getentropy): EIO, EINTR, EAGAIN, ENOSYS, EFAULT, EPERM, EINVAL,
+\* ENOMEM, and a failure that leaves errno 0; once, four times and sixteen times in a row.  Every one is a failure.
+Errnos == <<5, 4, 11, 38, 14, 1, 22, 12, 0>>
+FailRuns == <<<<0>>, <<0, 1, 2, 3>>, [i \in 1..16 |-> i - 1]>>
+NErrno == Len(Errnos) * 5 * Len(FailRuns)
+ErrnoAt(j) ==
+  LET e == Errnos[1 + ((j - 1) % Len(Errnos))]
+      s == 1 + (((j - 1) \div Len(Errnos)) % 5)
+      f == FailRuns[1 + ((j - 1) \div (5 * Len(Errnos)))]
+  IN  MItem("mnemonic.random", "refuse_errno",
+            [len |-> SizeOf(s), feed |-> BytesToHex(Prng(K("ge", <<j>>), 40)), fail_at |-> f, errno |-> e])
+
 \* real OS entropy (pass-through), logged by the interposed getentropy
 NReal == IF Thorough THEN 200 ELSE 30
 RealAt(j) ==
